@@ -1,0 +1,77 @@
+//go:build verif
+
+// Read-only accessors of the HNSW graph used by the verification harness in
+// /verif (build tag "verif"). Nothing here is compiled into normal builds.
+
+package comet
+
+import "sort"
+
+// VerifHNSWNode is one exported vertex: its level, soft-delete flag and the
+// ordered neighbour lists per layer (Edges[lc], lc = 0..len-1).
+type VerifHNSWNode struct {
+	ID      uint32
+	Level   int
+	Deleted bool
+	Edges   [][]uint32
+}
+
+// VerifHNSWMeta returns the entry point, the maximum level, the number of
+// resident vertices (soft-deleted ones included) and the number of soft-deleted ids.
+func (idx *HNSWIndex) VerifHNSWMeta() (entry uint32, maxLevel int, resident int, deleted int) {
+	idx.mu.RLock()
+	defer idx.mu.RUnlock()
+	return idx.entryPoint, idx.maxLevel, len(idx.nodes), int(idx.deletedNodes.GetCardinality())
+}
+
+// VerifHNSWLevel returns the level drawn for a resident vertex.
+func (idx *HNSWIndex) VerifHNSWLevel(id uint32) (int, bool) {
+	idx.mu.RLock()
+	defer idx.mu.RUnlock()
+	n, ok := idx.nodes[id]
+	if !ok {
+		return 0, false
+	}
+	return n.Level, true
+}
+
+// VerifHNSWVector returns a copy of the stored (preprocessed) vector of a vertex.
+func (idx *HNSWIndex) VerifHNSWVector(id uint32) ([]float32, bool) {
+	idx.mu.RLock()
+	defer idx.mu.RUnlock()
+	n, ok := idx.nodes[id]
+	if !ok {
+		return nil, false
+	}
+	return append([]float32(nil), n.Vector()...), true
+}
+
+// VerifHNSWVisit calls f for every resident vertex in ascending id order with the
+// map key, the vertex's own id, its level, soft-delete flag and neighbour lists.
+// The slices are the index's own storage: f must not modify or retain them.
+func (idx *HNSWIndex) VerifHNSWVisit(f func(key, id uint32, level int, deleted bool, edges [][]uint32)) {
+	idx.mu.RLock()
+	defer idx.mu.RUnlock()
+	keys := make([]uint32, 0, len(idx.nodes))
+	for k := range idx.nodes {
+		keys = append(keys, k)
+	}
+	sort.Slice(keys, func(i, j int) bool { return keys[i] < keys[j] })
+	for _, k := range keys {
+		n := idx.nodes[k]
+		f(k, n.ID(), n.Level, idx.deletedNodes.Contains(k), n.Edges)
+	}
+}
+
+// VerifHNSWGraph returns a deep copy of the whole graph in ascending id order.
+func (idx *HNSWIndex) VerifHNSWGraph() (entry uint32, maxLevel int, nodes []VerifHNSWNode) {
+	idx.VerifHNSWVisit(func(key, id uint32, level int, deleted bool, edges [][]uint32) {
+		cp := make([][]uint32, len(edges))
+		for i, e := range edges {
+			cp[i] = append([]uint32(nil), e...)
+		}
+		nodes = append(nodes, VerifHNSWNode{ID: key, Level: level, Deleted: deleted, Edges: cp})
+	})
+	entry, maxLevel, _, _ = idx.VerifHNSWMeta()
+	return
+}
